@@ -325,7 +325,14 @@ def execute(scn, ctx):
     if is_group:
         probe("group_source")
 
+    held = []  # arrays returned by earlier calls: later calls on the same object must not change them
+
     for step, op in enumerate(scn["ops"]):
+        for hv in list(held):
+            if M.canon(hv[1]) != hv[2]:
+                viol.append({"invariant": "C14.result_stable", "tags": {"op": op["op"]},
+                             "detail": f"the array returned at op {hv[0]} was changed by later calls (before op {step})"})
+                held.remove(hv)
         if op["op"] == "reseed":
             seam.seed(op["seed"])
             trace.append([step, "reseed"])
@@ -539,6 +546,8 @@ def execute(scn, ctx):
             except Exception as e:  # noqa: BLE001
                 bad("raises", f"bootstrap_metric({mname}) raised {type(e).__name__}: {e} although bootstrap_ci succeeded from the same seed")
             seam.set_state(after)
+        if res["ok"] and not control_fault:
+            held.append((step, res["value"], M.canon(res["value"])))
         trace.append([step, kind, tags, sorted(set(fired)), outcome,
                       M.digest(M.canon(res["value"]))[:16] if res["ok"] and not control_fault else None, res["draws"]])
         sig.append(f"{kind}|{mname}|{s_kind}|{sspec.get('inner', sspec).get('sampling_method', '')}|{sspec.get('inner', sspec).get('stratified_sampling', '')}|"
